@@ -405,6 +405,92 @@ pub fn long_tmpdir_case(id: String) -> Case {
 }
 
 /// descriptors of the library must not be inherited by an unrelated child
+
+/// Descriptor 0 is a descriptor like any other (a daemon that closed its standard input gets it for its next socket): a
+/// receiver / sender / region that happens to live on it is closed when dropped, and what its queue holds is released — the
+/// channel whose last sender travels in that queue disconnects.
+pub fn fd0_case(id: String) -> Case {
+    let mut case = Case::new(id);
+    let is_open = |fd: i32| unsafe { libc::fcntl(fd, libc::F_GETFD) != -1 };
+    unsafe {
+        let saved = libc::dup(0);
+        for round in 0..3 {
+            let (b_tx, b_rx) = ipc::channel::<u64>().unwrap();
+            let (a_tx, a_rx) = ipc::channel::<IpcSender<u64>>().unwrap();
+            let what;
+            // round 0: a receiver extracted from a message lands on 0; round 1: a sender created by socketpair; round 2: a region
+            let mut on_zero_rx = None;
+            let mut on_zero_tx = None;
+            let mut on_zero_region = None;
+            match round {
+                0 => {
+                    what = "receiver";
+                    let (c_tx, c_rx) = ipc::channel::<ipc::IpcReceiver<IpcSender<u64>>>().unwrap();
+                    a_tx.send(b_tx).unwrap();
+                    drop(a_tx);
+                    c_tx.send(a_rx).unwrap();
+                    libc::close(0);
+                    on_zero_rx = Some(c_rx.recv().unwrap());
+                },
+                1 => {
+                    what = "sender";
+                    drop(a_tx);
+                    drop(a_rx);
+                    libc::close(0);
+                    let (t, r) = ipc::channel::<IpcSender<u64>>().unwrap();
+                    t.send(b_tx).unwrap();
+                    on_zero_tx = Some(t);
+                    on_zero_rx = Some(r);
+                },
+                _ => {
+                    what = "region";
+                    let (c_tx, c_rx) = ipc::channel::<IpcSharedMemory>().unwrap();
+                    c_tx.send(IpcSharedMemory::from_bytes(&[9u8; 100])).unwrap();
+                    a_tx.send(b_tx).unwrap();
+                    drop(a_tx);
+                    libc::close(0);
+                    on_zero_region = Some(c_rx.recv().unwrap());
+                    on_zero_rx = Some(a_rx);
+                },
+            }
+            let mut st: libc::stat = std::mem::zeroed();
+            if libc::fstat(0, &mut st) != 0 {
+                case.tags.push(format!("fd0_not_taken_round{}", round));
+            }
+            match b_rx.try_recv() {
+                Err(ipc::TryRecvError::Empty) => {},
+                other => case.fail(format!("round {} ({} on descriptor 0): the observed channel answered {:?} while its sender is in a queued message", round, what, other.map(|_| ()))),
+            }
+            if let Some(m) = &on_zero_region {
+                if m[..] != [9u8; 100][..] {
+                    case.fail("a region received on descriptor 0 has other contents".into());
+                }
+            }
+            drop(on_zero_tx);
+            drop(on_zero_region);
+            drop(on_zero_rx);
+            match b_rx.try_recv_timeout(std::time::Duration::from_secs(3)) {
+                Err(ipc::TryRecvError::IpcError(ipc::IpcError::Disconnected)) => {},
+                other => case.fail(format!(
+                    "round {} ({} on descriptor 0): after the receiver holding the only message with the last sender was dropped, the observed channel answered {:?} \
+                     instead of disconnected", round, what, other.map(|_| ()))),
+            }
+            drop(b_rx);
+            if is_open(0) {
+                case.fail(format!("round {}: descriptor 0 (a {}) is still open after every handle was dropped", round, what));
+                libc::close(0);
+            }
+            libc::dup2(saved, 0);
+        }
+        libc::dup2(saved, 0);
+        libc::close(saved);
+    }
+    case.pair("noop".into(), "ok".into());
+    case.nontrivial = true;
+    case.key = "fd0".into();
+    case
+}
+
 pub fn inherit_case(id: String) -> Case {
     let mut case = Case::new(id);
     let (tx, rx) = ipc::channel::<Option<IpcSharedMemory>>().unwrap();
@@ -447,6 +533,7 @@ pub fn run(args: &[String]) {
     std::panic::set_hook(Box::new(|_| {}));
     long_tmpdir_case("res-long-tmpdir".into()).emit();
     inherit_case("res-inherit".into()).emit();
+    fd0_case("res-fd0".into()).emit();
     for i in 0..n {
         one_case(&mut rng, format!("res-{}", i), thorough).emit();
     }
